@@ -29,14 +29,23 @@ Lemma split_event_framed : forall h0 h e dt h' a ob,
   (forall b, ob = Some b -> fresh_in h0 h' b).
 Proof.
   unfold split_event_h. intros h0 h e dt h' a ob F Fe H.
-  repeat step_ok H.
-  - destruct a0 as [h1 e1]. destruct a1 as [h2 e2]. cbn [fst snd] in *.
+  destruct (rd_ts h e) as [t| |] eqn:Rt; cbn [bind] in H; try discriminate.
+  destruct (rd_dur h e) as [d| |] eqn:Rd; cbn [bind] in H; try discriminate.
+  destruct ((t <? dt)%Z && (dt <? t + d)%Z).
+  - destruct (pdeepcopy h e) as [[h1 e1]| |] eqn:E1; cbn [bind fst snd] in H; try discriminate.
+    destruct (pdeepcopy h1 e) as [[h2 e2]| |] eqn:E2; cbn [bind fst snd] in H; try discriminate.
+    destruct (rd_ts h2 e) as [t'| |]; cbn [bind] in H; try discriminate.
+    destruct (wr_dur h2 e1 (dt - t')) as [h3| |] eqn:W3; cbn [bind] in H; try discriminate.
+    destruct (wr_ts h3 e2 dt) as [h4| |] eqn:W4; cbn [bind] in H; try discriminate.
+    destruct (rd_ts h4 e) as [t''| |]; cbn [bind] in H; try discriminate.
+    destruct (rd_dur h4 e) as [d''| |]; cbn [bind] in H; try discriminate.
+    destruct (wr_dur h4 e2 (t'' + d'' - dt)) as [h5| |] eqn:W5; cbn [bind] in H; try discriminate.
     inversion H; subst h' a ob; clear H.
     destruct (pdeepcopy_inv _ _ _ _ E1) as (m1 & C1). destruct (pdeepcopy_inv _ _ _ _ E2) as (m2 & C2).
     pose proof (copied_fresh _ _ _ _ _ C1) as B1. pose proof (copied_fresh _ _ _ _ _ C2) as B2.
     pose proof (framed_length _ _ F) as G.
     assert (F2 : framed h0 h2) by (eapply framed_copied; [eapply framed_copied; eauto|eauto]).
-    assert (R : retags (fun l => l = e1 \/ l = e2) h2 h4) by solve_retags.
+    assert (R : retags (fun l => l = e1 \/ l = e2) h2 h5) by solve_retags.
     pose proof (retags_length _ _ _ R) as LEN.
     split; [eapply retags_framed; [exact R| |exact F2]; intros l [-> | ->]; lia|].
     split; [lia|]. split; [unfold fresh_in; lia|].
@@ -69,22 +78,33 @@ Proof.
   assert (Fe2 : fresh_in h0 h e2) by (apply A2; left; auto).
   assert (Ar1 : all_fresh h0 h r1) by (intros k I; apply A1; right; auto).
   assert (Ar2 : all_fresh h0 h r2) by (intros k I; apply A2; right; auto).
-  step_ok H. step_ok H. step_ok H. step_ok H. cbv zeta in H.
-  step_ok H; [inversion H; subst; repeat split; auto; try lia; apply all_fresh_cons; auto; apply all_fresh_nil|].
-  step_ok H; [inversion H; subst; repeat split; auto; try lia; apply all_fresh_cons; auto; apply all_fresh_nil|].
-  step_ok H. destruct a3 as [h1 [em oe2]]. cbn [fst snd] in H.
+  destruct (rd_ts h e1) as [t1| |]; cbn [bind] in H; try discriminate.
+  destruct (rd_dur h e1) as [d1| |]; cbn [bind] in H; try discriminate.
+  destruct (rd_ts h e2) as [t2| |]; cbn [bind] in H; try discriminate.
+  destruct (rd_dur h e2) as [d2| |]; cbn [bind] in H; try discriminate.
+  cbv zeta in H.
+  destruct (t2 + d2 <=? t1)%Z.
+  { inversion H; subst. split; auto. split; [lia|]. split; [apply all_fresh_cons; auto; apply all_fresh_nil|].
+    split; auto. }
+  destruct (t1 + d1 <=? t2)%Z.
+  { inversion H; subst. split; auto. split; [lia|]. split; [apply all_fresh_cons; auto; apply all_fresh_nil|].
+    split; auto. }
   (* the first (optional) split *)
+  match type of H with bind ?r _ = _ => destruct r as [[h1 [em oe2]]| |] eqn:E3 end;
+    cbn [bind fst snd] in H; try discriminate.
   assert (S1 : framed h0 h1 /\ length h <= length h1 /\ all_fresh h0 h1 em /\
                (forall b, oe2 = Some b -> fresh_in h0 h1 b)).
-  { destruct (a1 <? a)%Z.
-    - step_ok E3. destruct a3 as [hx [b ob]]. cbn [fst snd] in E3. inversion E3; subst h1 em oe2; clear E3.
+  { destruct (t2 <? t1)%Z.
+    - destruct (split_event_h h e2 t1) as [[hx [b ob]]| |] eqn:E4; cbn [bind fst snd] in E3; try discriminate.
+      inversion E3; subst h1 em oe2; clear E3.
       destruct (split_event_framed _ _ _ _ _ _ _ F Fe2 E4) as (Fx & Gx & Fb & Fob).
       split; auto. split; auto. split; auto. apply all_fresh_cons; auto. apply all_fresh_nil.
     - inversion E3; subst. split; auto. split; [lia|]. split; [apply all_fresh_nil|].
       intros b Eb. inversion Eb; subst. auto. }
   destruct S1 as (F1 & G1 & Aem & Foe).
-  step_ok H.
-  - destruct oe2 as [e2'|]; [|discriminate]. step_ok H. destruct a3 as [h2 [x oa]]. cbn [fst snd] in H.
+  destruct (t2 + d2 >? t1 + d1)%Z.
+  - destruct oe2 as [e2'|]; [|discriminate].
+    destruct (split_event_h h1 e2' (t1 + d1)) as [[h2 [x oa]]| |] eqn:E4; cbn [bind fst snd] in H; try discriminate.
     inversion H; subst h' emit l1 l2; clear H.
     destruct (split_event_framed _ _ _ _ _ _ _ F1 (Foe _ eq_refl) E4) as (F2 & G2 & _ & Foa).
     split; auto. split; [lia|].
@@ -94,7 +114,7 @@ Proof.
     apply all_fresh_cons; [|eapply all_fresh_grow; eauto; lia].
     destruct oa as [a'|]; [apply Foa; auto|]. eapply fresh_in_grow; [apply Foe; auto|lia].
   - inversion H; subst h' emit l1 l2; clear H. split; auto. split; auto. split; auto.
-    split; eapply all_fresh_grow; eauto. apply all_fresh_cons; auto.
+    split; eapply all_fresh_grow; eauto.
 Qed.
 
 Lemma uno_loop_framed : forall h0 fuel h l1 l2 out h' res,
